@@ -33,9 +33,9 @@ use actix_files::{Files, HttpRange, NamedFile, PathBufWrap, UriSegmentError};
 use actix_web::{
     body::{BodySize, BoxBody, MessageBody},
     dev::{Service, ServiceResponse},
-    http::header::{self, HeaderValue, HttpDate},
+    http::header::{self, AcceptEncoding, ContentEncoding, Encoding, HeaderValue, HttpDate},
     test::{self, TestRequest},
-    web, App, HttpRequest, HttpResponse,
+    web, App, HttpMessage, HttpRequest, HttpResponse,
 };
 use futures_util::FutureExt;
 use serde::{Deserialize, Serialize};
@@ -45,10 +45,13 @@ use vh::*;
 #[serde(tag = "k")]
 enum Case {
     Path { hidden: bool, s: String },
-    Url { hidden: bool, tail: String },
+    /// `cfg` bits: 1 hidden files, 2 try_compressed, 4 index_file("a"), 8 read_mode_threshold(1<<20)
+    /// (+ prefer_utf8); the request is `GET /m{cfg}{tail}` with optional Accept-Encoding
+    Url { cfg: u8, tail: String, ae: Option<String> },
     Range { hdr: String, size: u64 },
     /// `range`: hex of the raw header value (may be non-ASCII); im/inm/ius/ims: header variants
-    Resp { size: u64, range: Option<String>, im: u8, inm: u8, ius: u8, ims: u8, sync: bool },
+    /// `thr`: NamedFile::read_mode_threshold (sync reads iff bytes to send < thr)
+    Resp { size: u64, range: Option<String>, im: u8, inm: u8, ius: u8, ims: u8, thr: u64 },
     Trunc { size: u64, actual: u64, range: Option<String> },
     /// std::path itself: `Path::new(p).components()` and `Path::new(base).join(p)` (ties the
     /// model's `components` / `join` to the standard library)
@@ -56,13 +59,33 @@ enum Case {
 }
 
 // ------------------------------------------------------------------ fixture
-const TREE_FILES: &[&str] =
-    &["a", "é", ".a", "a*", "\\", "%2e%2e", "%", "a.a", "a..", "...", "aa/a", "aa/.a", "aa/é"];
-const CANARIES: &[&str] = &["outer/a", "outer/canary", "outer/aa/a", "outer/é", "a", "canary", "aa/a"];
+const TREE_FILES: &[&str] = &[
+    "a", "é", ".a", "a*", "\\", "%2e%2e", "%", "a.a", "a..", "...", "aa/a", "aa/.a", "aa/é",
+    // pre-compressed variants INSIDE the root (and one sibling of the directory aa, also inside)
+    "a.txt", "a.txt.gz", "a.txt.br", "a.gz", "aa.gz", "aa/a.gz", "aa/a.zst", "b.zst", "big.bin",
+];
+/// outside the root; the root is <tmp>/outer/root, so root.gz & co are SIBLINGS of the root
+const CANARIES: &[&str] = &[
+    "outer/a", "outer/canary", "outer/aa/a", "outer/é", "a", "canary", "aa/a",
+    "outer/root.gz", "outer/root.br", "outer/root.zst", "outer/root.bak", "outer/root~", "outer/root.txt", "outer/root.a",
+    "outer/roota", "outer/a.gz", "outer/aa.gz", "outer.gz", "outer.br", "outer.zst", "a.gz",
+];
+const BIG_LEN: u64 = 200_000;
 const T0: u64 = 1_600_000_000;
 
+/// position dependent and not periodic (in particular not 64 KiB-periodic)
 fn pat(i: u64) -> u8 {
-    (i.wrapping_mul(31).wrapping_add((i >> 8).wrapping_mul(7)).wrapping_add(3) & 0xff) as u8
+    let x = i.wrapping_mul(0x9E37_79B9_7F4A_7C15);
+    ((x >> 29) ^ (x >> 47) ^ (i >> 7) ^ i) as u8
+}
+
+fn tree_content(name: &str) -> Vec<u8> {
+    let mut v = format!("FILE:{name}").into_bytes();
+    if name == "big.bin" {
+        v.push(0);
+        v.extend((0..BIG_LEN).map(pat));
+    }
+    v
 }
 
 struct Env {
@@ -82,7 +105,7 @@ impl Env {
         fs::create_dir_all(base.join("outer").join("aa")).unwrap();
         fs::create_dir_all(base.join("aa")).unwrap();
         for f in TREE_FILES {
-            fs::write(root.join(f), format!("FILE:{f}")).unwrap();
+            fs::write(root.join(f), tree_content(f)).unwrap();
         }
         for c in CANARIES {
             fs::write(base.join(c), format!("CANARY:{c}")).unwrap();
@@ -213,11 +236,29 @@ fn v_resp(o: &RespObs) -> V {
             V::N(o.status as u128),
             V::opt(o.cr.as_ref(), v_cr),
             V::opt(o.size, |n| V::N(n as u128)),
-            V::L(o.chunks.iter().map(|c| V::us(c.len())).collect()),
+            V::L(chunk_positions(&o.chunks, offset as u64).into_iter().map(|(p, l)| V::T("c", vec![V::opt(p, |p| V::N(p as u128)), V::us(l)])).collect()),
             V::b(o.err),
             V::N(offset),
         ],
     )
+}
+
+/// where in the file each chunk's bytes come from: the sequential position if the bytes match
+/// there, otherwise the first position at which they occur, otherwise None
+fn chunk_positions(chunks: &[Vec<u8>], start: u64) -> Vec<(Option<u64>, usize)> {
+    let mut out = vec![];
+    let mut pos = start;
+    for c in chunks {
+        let seq = c.iter().enumerate().all(|(j, b)| *b == pat(pos + j as u64));
+        let found = if seq {
+            Some(pos)
+        } else {
+            (0..400_000u64).find(|p| c.iter().enumerate().all(|(j, b)| *b == pat(p + j as u64)))
+        };
+        out.push((found, c.len()));
+        pos += c.len() as u64;
+    }
+    out
 }
 
 fn file_slice(off: u128, len: u128) -> Vec<u8> {
@@ -428,16 +469,45 @@ fn run_path(hidden: bool, s: &str) -> (Option<V>, String, Result<(), String>) {
     }
 }
 
+/// the order in which actix-web's content negotiation (outside C16) would hand out the
+/// pre-compressed encodings for this Accept-Encoding value: 0 br, 1 gzip, 2 zstd
+fn negotiation_order(ae: &Option<String>) -> Vec<u8> {
+    let Some(v) = ae else { return vec![] };
+    let req = TestRequest::get().insert_header((header::ACCEPT_ENCODING, v.as_str())).to_http_request();
+    let Some(acc) = req.get_header::<AcceptEncoding>() else { return vec![] };
+    let mut supported: Vec<Encoding> =
+        [ContentEncoding::Brotli, ContentEncoding::Gzip, ContentEncoding::Zstd, ContentEncoding::Identity].into_iter().map(Encoding::Known).collect();
+    let mut out = vec![];
+    while let Some(chosen) = acc.negotiate(supported.iter()) {
+        match chosen {
+            Encoding::Known(ContentEncoding::Brotli) => out.push(0),
+            Encoding::Known(ContentEncoding::Gzip) => out.push(1),
+            Encoding::Known(ContentEncoding::Zstd) => out.push(2),
+            _ => break,
+        }
+        supported.retain(|e| e != &chosen);
+    }
+    out
+}
+
 struct UrlObs {
     status: u16,
     served: Option<Vec<u8>>,
     seen: Option<Vec<u8>>,
     unprocessed: Vec<u8>,
+    /// Content-Encoding of the response: 0 br, 1 gzip, 2 zstd, 9 other
+    enc: Option<u8>,
 }
 
-fn judge_url(o: &UrlObs, body: &[u8], hidden: bool) -> Result<(), String> {
+const EXTS: &[&str] = &[".br", ".gz", ".zst"];
+
+fn judge_url(o: &UrlObs, body: &[u8], cfg: u8, ae: &Option<String>) -> Result<(), String> {
+    let hidden = cfg & 1 != 0;
     if body.windows(6).any(|w| w == b"CANARY") {
-        return Err("a canary file outside the root was served".into());
+        return Err(format!(
+            "a canary file outside the root was served: {:?}",
+            String::from_utf8_lossy(&body[..body.len().min(40)])
+        ));
     }
     if o.status == 200 {
         let Some(name) = &o.served else { return Err("200 whose body is not a file under the root".into()) };
@@ -445,9 +515,26 @@ fn judge_url(o: &UrlObs, body: &[u8], hidden: bool) -> Result<(), String> {
         if !TREE_FILES.contains(&name.as_str()) {
             return Err(format!("200 served {name:?}, not a file under the root"));
         }
+        if body != tree_content(&name).as_slice() {
+            let at = body.iter().zip(tree_content(&name).iter()).position(|(a, b)| a != b);
+            return Err(format!("200 body is not the content of {name:?} (length {}, first difference at {at:?})", body.len()));
+        }
         if !hidden && name.split('/').any(|s| s.starts_with('.')) {
             return Err(format!("hidden file {name:?} served although hidden files are off"));
         }
+        match o.enc {
+            None => {}
+            Some(e) => {
+                if cfg & 2 == 0 || ae.is_none() {
+                    return Err("Content-Encoding although try_compressed is off / no Accept-Encoding".into());
+                }
+                if e > 2 || !name.ends_with(EXTS[e as usize]) {
+                    return Err(format!("Content-Encoding code {e} but the served file is {name:?}"));
+                }
+            }
+        }
+    } else if o.enc.is_some() {
+        return Err("Content-Encoding on an error response".into());
     } else if !(400..600).contains(&o.status) {
         return Err(format!("status {} is neither 200 nor an error", o.status));
     }
@@ -532,7 +619,12 @@ fn exhaustive(len: usize, mut f: impl FnMut(String)) {
     }
 }
 
-const SIZES: &[u64] = &[0, 1, 10, 65_536, 65_537, 200_000];
+const SIZES: &[u64] = &[0, 1, 10, 65_536, 65_537, 131_073, 200_000];
+const THRESHOLDS: &[u64] = &[0, 1, 65_536, 1 << 20];
+const ACCEPT: &[&str] = &[
+    "gzip", "br", "zstd", "*", "gzip, br", "br;q=0.5, gzip", "identity", "deflate", "gzip;q=0", "zstd, *;q=0.1", "gzip, br, zstd",
+    "zstd;q=0.9, gzip;q=0.8", "", "br;q=0, *",
+];
 
 fn boundary_num(rng: &mut Rng, size: u64) -> String {
     let c: Vec<u128> = vec![
@@ -659,10 +751,22 @@ where
             show = sh;
             verdict = ver;
         }
-        Case::Url { hidden, tail } => {
+        Case::Url { cfg, tail, ae } => {
             tags.push("kind:url".into());
-            let uri = format!("/{}/{}", if *hidden { "h" } else { "f" }, tail);
-            let reqs = catch(|| (TestRequest::get().uri(&uri).to_request(), TestRequest::get().uri(&uri).to_request()));
+            tags.push(format!("url-cfg:{}{}{}{}", if cfg & 1 != 0 { "H" } else { "-" }, if cfg & 2 != 0 { "C" } else { "-" }, if cfg & 4 != 0 { "I" } else { "-" }, if cfg & 8 != 0 { "S" } else { "-" }));
+            if ae.is_some() {
+                tags.push("url:accept-encoding".into());
+            }
+            let hidden = cfg & 1 != 0;
+            let uri = format!("/m{}{}", cfg & 15, tail);
+            let mk = || {
+                let mut t = TestRequest::get().uri(&uri);
+                if let Some(v) = ae {
+                    t = t.insert_header((header::ACCEPT_ENCODING, v.as_str()));
+                }
+                t.to_request()
+            };
+            let reqs = catch(|| (mk(), mk()));
             match reqs {
                 Err(_) => {
                     tags.push("url-result:uri-rejected".into());
@@ -677,14 +781,20 @@ where
                             Ok(r) => test::read_body(r).await.to_vec(),
                             Err(_) => b"<probe error>".to_vec(),
                         };
-                        let (status, body) = match cx.app.call(req).await {
+                        let (status, enc, body) = match cx.app.call(req).await {
                             Ok(r) => {
                                 let st = r.status().as_u16();
-                                (st, test::read_body(r).await.to_vec())
+                                let enc = r.headers().get(header::CONTENT_ENCODING).map(|v| match v.as_bytes() {
+                                    b"br" => 0u8,
+                                    b"gzip" => 1,
+                                    b"zstd" => 2,
+                                    _ => 9,
+                                });
+                                (st, enc, test::read_body(r).await.to_vec())
                             }
-                            Err(e) => (e.as_response_error().status_code().as_u16(), vec![]),
+                            Err(e) => (e.as_response_error().status_code().as_u16(), None, vec![]),
                         };
-                        (unprocessed, status, body)
+                        (unprocessed, status, enc, body)
                     };
                     match std::panic::AssertUnwindSafe(fut).catch_unwind().await {
                         Err(_) => {
@@ -694,18 +804,38 @@ where
                             nontrivial = true;
                             expect = Some(V::t0("panic"));
                         }
-                        Ok((unprocessed, status, body)) => {
-                            let served = if status == 200 { body.strip_prefix(b"FILE:").map(|b| b.to_vec()) } else { None };
-                            let o = UrlObs { status, served, seen: cx.seen.borrow_mut().take(), unprocessed };
+                        Ok((unprocessed, status, enc, body)) => {
+                            let served = if status == 200 {
+                                body.strip_prefix(b"FILE:").map(|b| b.split(|c| *c == 0).next().unwrap().to_vec())
+                            } else {
+                                None
+                            };
+                            let o = UrlObs { status, served, seen: cx.seen.borrow_mut().take(), unprocessed, enc };
                             let v = V::T(
                                 "serve",
-                                vec![V::N(o.status as u128), V::opt(o.served.as_ref(), V::h), V::opt(o.seen.as_ref(), V::h)],
+                                vec![
+                                    V::N(o.status as u128),
+                                    V::opt(o.served.as_ref(), V::h),
+                                    V::opt(o.seen.as_ref(), V::h),
+                                    V::opt(o.enc, |e| V::N(e as u128)),
+                                ],
                             );
                             tags.push(format!("url-status:{}", o.status));
-                            coq_case = Some(format!("CServe {} {}", coq_bool(*hidden), coq_bytes(&o.unprocessed)));
+                            if o.enc.is_some() {
+                                tags.push("url:served-precompressed".into());
+                            }
+                            let neg = negotiation_order(ae);
+                            coq_case = Some(format!(
+                                "CServe {} {} {} {} {}",
+                                coq_bool(hidden),
+                                coq_bool(cfg & 2 != 0),
+                                coq_bool(cfg & 4 != 0),
+                                coq_bytes(&o.unprocessed),
+                                coq_list(&neg, |e| e.to_string())
+                            ));
                             show = format!("{} unprocessed={:?}", v.show(), String::from_utf8_lossy(&o.unprocessed));
-                            verdict = judge_url(&o, &body, *hidden);
-                            nontrivial = tail.contains("..") || tail.contains('%');
+                            verdict = judge_url(&o, &body, *cfg, ae);
+                            nontrivial = tail.contains("..") || tail.contains('%') || ae.is_some();
                             expect = Some(v);
                         }
                     }
@@ -715,7 +845,15 @@ where
         Case::Std { base, p } => {
             tags.push("kind:std-path".into());
             let joined = Path::new(base).join(p);
-            let v = V::T("std", vec![v_components(Path::new(p)), V::h(joined.as_os_str().as_bytes()), v_components(&joined)]);
+            let v = V::T(
+                "std",
+                vec![
+                    v_components(Path::new(p)),
+                    V::h(joined.as_os_str().as_bytes()),
+                    v_components(&joined),
+                    v_components(&joined.with_file_name("x.gz")),
+                ],
+            );
             coq_case = Some(format!("CStd {} {}", coq_bytes(base.as_bytes()), coq_bytes(p.as_bytes())));
             nontrivial = p.contains('/') || p.contains('.');
             show = v.show();
@@ -750,9 +888,9 @@ where
             expect = Some(v);
         }
         Case::Resp { .. } | Case::Trunc { .. } => {
-            let (size, actual, range, conds, sync, trunc) = match &case {
-                Case::Resp { size, range, im, inm, ius, ims, sync } => (*size, *size, range.clone(), (*im, *inm, *ius, *ims), *sync, false),
-                Case::Trunc { size, actual, range } => (*size, *actual, range.clone(), (0, 0, 0, 0), false, true),
+            let (size, actual, range, conds, thr, trunc) = match &case {
+                Case::Resp { size, range, im, inm, ius, ims, thr } => (*size, *size, range.clone(), (*im, *inm, *ius, *ims), *thr, false),
+                Case::Trunc { size, actual, range } => (*size, *actual, range.clone(), (0, 0, 0, 0), 0u64, true),
                 _ => unreachable!(),
             };
             tags.push(if trunc { "kind:trunc".into() } else { "kind:resp".into() });
@@ -801,7 +939,7 @@ where
                     tr = tr.insert_header((header::IF_MODIFIED_SINCE, v));
                 }
                 let req: HttpRequest = tr.to_http_request();
-                let nf = NamedFile::open(&path).expect("open").read_mode_threshold(if sync { u64::MAX } else { 0 });
+                let nf = NamedFile::open(&path).expect("open").read_mode_threshold(thr);
                 if trunc {
                     fs::OpenOptions::new().write(true).open(&path).unwrap().set_len(actual).unwrap();
                 }
@@ -832,15 +970,13 @@ where
                 coq_case = Some(if trunc {
                     format!("CTrunc {} {} {}", size, actual, coq_opt_bytes(&range_b))
                 } else {
-                    format!("CResp {} {} {} {} {} {}", size, coq_opt_bytes(&range_b), conds.0, conds.1, conds.2, conds.3)
+                    format!("CResp {} {} {} {} {} {} {}", size, coq_opt_bytes(&range_b), conds.0, conds.1, conds.2, conds.3, thr)
                 });
                 nontrivial = range_b.is_some() || conds != (0, 0, 0, 0) || trunc;
                 if conds != (0, 0, 0, 0) {
                     tags.push("resp:conditional".into());
                 }
-                if sync {
-                    tags.push("resp:sync-read".into());
-                }
+                tags.push(format!("resp-threshold:{thr}"));
             }
         }
     }
@@ -878,25 +1014,37 @@ fn main() {
     vh::exec::run_local(async move {
         let env = Env::new();
         let seen: Rc<RefCell<Option<Vec<u8>>>> = Rc::new(RefCell::new(None));
-        let mk = |hidden: bool| {
+        // one mount per service configuration (see Case::Url)
+        let mk = |cfg: u8| {
             let s = seen.clone();
-            let f = Files::new(if hidden { "/h" } else { "/f" }, &env.root).path_filter(move |p, _| {
+            let mut f = Files::new(&format!("/m{cfg}"), &env.root).path_filter(move |p, _| {
                 *s.borrow_mut() = Some(p.as_os_str().as_bytes().to_vec());
                 true
             });
-            if hidden {
-                f.use_hidden_files()
-            } else {
-                f
+            if cfg & 1 != 0 {
+                f = f.use_hidden_files();
             }
+            if cfg & 2 != 0 {
+                f = f.try_compressed();
+            }
+            if cfg & 4 != 0 {
+                f = f.index_file("a");
+            }
+            if cfg & 8 != 0 {
+                f = f.read_mode_threshold(1 << 20).prefer_utf8(true);
+            }
+            f
         };
-        let app = test::init_service(App::new().service(mk(false)).service(mk(true))).await;
-        let probe = test::init_service(
-            App::new()
-                .service(web::scope("/f").default_service(web::to(unprocessed_probe)))
-                .service(web::scope("/h").default_service(web::to(unprocessed_probe))),
-        )
-        .await;
+        // longer mount names first: "/m1" is a segment-wise prefix match, so order is irrelevant,
+        // but keep it deterministic
+        let mut a = App::new();
+        let mut pr = App::new();
+        for cfg in (0..16u8).rev() {
+            a = a.service(mk(cfg));
+            pr = pr.service(web::scope(&format!("/m{cfg}")).default_service(web::to(unprocessed_probe)));
+        }
+        let app = test::init_service(a).await;
+        let probe = test::init_service(pr).await;
         let cx = Ctx { env, app, probe, seen: seen.clone() };
         let mut em = Emitter::default();
 
@@ -914,22 +1062,48 @@ fn main() {
                     None => base,
                 }
             };
-            // (a) URL paths through the service: exhaustive to a small length, then sampled
-            let mut urls: Vec<(bool, String)> = vec![(false, String::new()), (true, String::new())];
+            // (a) URL paths through the service: exhaustive to a small length, then sampled;
+            //     dimensions: service configuration x request path x Accept-Encoding
+            let gz = || Some("gzip".to_string());
+            let mut urls: Vec<(u8, String, Option<String>)> = vec![];
+            for cfg in 0..16u8 {
+                // requests that resolve to the root directory itself / the mount path
+                for t in ["", "/", "//", "/aa/..", "/%2e%2e/", "/aa/../", "/aa", "/aa/", "/.."] {
+                    urls.push((cfg, t.to_string(), None));
+                    let aes: &[&str] = if thorough { &["gzip", "br", "zstd", "*", "gzip, br, zstd"] } else { &["gzip", "zstd", "gzip, br, zstd"] };
+                    for ae in aes {
+                        urls.push((cfg, t.to_string(), Some(ae.to_string())));
+                    }
+                }
+                exhaustive(1, |s| urls.push((cfg, format!("/{s}"), Some("gzip, br".to_string()))));
+            }
             for len in 1..=(if thorough { 4 } else { 2 }) {
-                exhaustive(len, |s| urls.push((false, s)));
+                exhaustive(len, |s| urls.push((0, format!("/{s}"), None)));
             }
-            for len in 1..=(if thorough { 3 } else { 1 }) {
-                exhaustive(len, |s| urls.push((true, s)));
+            for len in 2..=(if thorough { 3 } else { 2 }) {
+                exhaustive(len, |s| urls.push((2, format!("/{s}"), gz())));
             }
-            for (i, (h, s)) in urls.into_iter().enumerate() {
-                emit_case(&cx, &mut em, format!("url-exh-{i}"), Case::Url { hidden: h, tail: s }).await;
+            if thorough {
+                for len in 1..=3 {
+                    exhaustive(len, |s| urls.push((1, format!("/{s}"), None)));
+                    exhaustive(len, |s| urls.push((6, format!("/{s}"), Some("br".to_string()))));
+                }
+                for cfg in 0..16u8 {
+                    exhaustive(2, |s| urls.push((cfg, format!("/{s}"), Some("zstd, gzip".to_string()))));
+                }
             }
-            for i in 0..scale(500, 4000) {
+            for (i, (cfg, tail, ae)) in urls.into_iter().enumerate() {
+                emit_case(&cx, &mut em, format!("url-exh-{i}"), Case::Url { cfg, tail, ae }).await;
+            }
+            for i in 0..scale(400, 5000) {
                 let mut r = rng.fork();
                 let n = r.range(3, 9) as usize;
+                let cfg = r.below(16) as u8;
                 let tail = if r.chance(1, 2) { decorated_url(&mut r) } else { tokens_string(&mut r, n, false) };
-                emit_case(&cx, &mut em, format!("url-gen-{i}"), Case::Url { hidden: r.chance(1, 3), tail }).await;
+                let tail = if tail.is_empty() && r.chance(1, 2) { tail } else { format!("/{tail}") };
+                let p_ae = if cfg & 2 != 0 { 7 } else { 2 };
+                let ae = if r.chance(p_ae, 10) { Some(r.pick(ACCEPT).to_string()) } else { None };
+                emit_case(&cx, &mut em, format!("url-gen-{i}"), Case::Url { cfg, tail, ae }).await;
             }
             // direct parse_path: exhaustive over the token alphabet, then the extended alphabet
             let mut paths: Vec<String> = vec![];
@@ -939,14 +1113,14 @@ fn main() {
             for (i, s) in paths.into_iter().enumerate() {
                 emit_case(&cx, &mut em, format!("path-exh-{i}"), Case::Path { hidden: false, s: format!("/{s}") }).await;
             }
-            for i in 0..scale(600, 6000) {
+            for i in 0..scale(350, 6000) {
                 let mut r = rng.fork();
                 let n = r.range(1, 10) as usize;
                 let s = tokens_string(&mut r, n, true);
                 emit_case(&cx, &mut em, format!("path-gen-{i}"), Case::Path { hidden: r.chance(1, 3), s }).await;
             }
             // std::path semantics the model relies on
-            for i in 0..scale(150, 1500) {
+            for i in 0..scale(100, 1500) {
                 let mut r = rng.fork();
                 let toks: &[&str] = &["a", ".", "..", "/", "//", "b.", ".c", "\\", "é", "...", "a/", "/."];
                 let mk = |r: &mut Rng, n: usize| -> String { (0..n).map(|_| *r.pick(toks)).collect() };
@@ -957,7 +1131,7 @@ fn main() {
                 emit_case(&cx, &mut em, format!("std-gen-{i}"), Case::Std { base, p }).await;
             }
             // (b) Range parsing and responses
-            for i in 0..scale(500, 5000) {
+            for i in 0..scale(300, 5000) {
                 let mut r = rng.fork();
                 let size = if r.chance(1, 10) { *r.pick(&[u64::MAX, u64::MAX - 1, 1 << 63]) } else { pick_size(&mut r) };
                 let (h, _) = gen_range(&mut r, size);
@@ -965,7 +1139,7 @@ fn main() {
                     emit_case(&cx, &mut em, format!("range-gen-{i}"), Case::Range { hdr, size }).await;
                 }
             }
-            for i in 0..scale(700, 7000) {
+            for i in 0..scale(500, 7000) {
                 let mut r = rng.fork();
                 let size = pick_size(&mut r);
                 let range = if r.chance(1, 10) { None } else { Some(hex(&gen_range(&mut r, size).0)) };
@@ -979,7 +1153,18 @@ fn main() {
                         if r.chance(1, 2) { r.below(4) as u8 } else { 0 },
                     )
                 };
-                emit_case(&cx, &mut em, format!("resp-gen-{i}"), Case::Resp { size, range, im, inm, ius, ims, sync: r.chance(1, 4) }).await;
+                emit_case(&cx, &mut em, format!("resp-gen-{i}"), Case::Resp { size, range, im, inm, ius, ims, thr: *r.pick(THRESHOLDS) }).await;
+            }
+            // files of more than one / two chunks, whole and ranged, in both read modes
+            let mut i = 0;
+            for size in [65_537u64, 131_073, 200_000] {
+                for thr in THRESHOLDS {
+                    for range in [None, Some("bytes=0-"), Some("bytes=1000-150000"), Some("bytes=0-65536"), Some("bytes=70000-"), Some("bytes=-100000"), Some("bytes=65535-131072")] {
+                        let range = range.map(|r| hex(r.as_bytes()));
+                        emit_case(&cx, &mut em, format!("resp-big-{i}"), Case::Resp { size, range, im: 0, inm: 0, ius: 0, ims: 0, thr: *thr }).await;
+                        i += 1;
+                    }
+                }
             }
             for i in 0..scale(60, 400) {
                 let mut r = rng.fork();
